@@ -45,6 +45,8 @@ def main():
             seen = {}
             for v in vals:
                 seen[fr(v)] = word(float(v))
+                if word(float(v)) == 0x80000000:
+                    r['negzero'] = True      # the sign of a zero is not representable in the compiler model (Q)
             r['f32'] = sorted(seen.items())
         out.append(r)
     json.dump({'out': out}, open(sys.argv[2], 'w'))
